@@ -9,7 +9,7 @@
    C daemon, bounded latency — is explored by tools/props/c10.py and is NOT claimed
    here. *)
 From DV Require Import Lib.Base Gen.Tables Wire.Message Proofs.LoaderProofs Auth.Types Auth.Server Robust.Bus Robust.Env Robust.Mini Spec.RobustSpec
-  Proofs.RobustBase Proofs.RobustInv Proofs.RobustIso Proofs.RobustRefine Proofs.RobustEnv.
+  Proofs.RobustBase Proofs.RobustInv Proofs.RobustIso Proofs.RobustRefine Proofs.RobustEnv Proofs.RobustClose.
 Local Open Scope N_scope.
 
 Section Generic.
@@ -123,6 +123,23 @@ Section Generic.
   Proof. exact (env_run_is_run P cf). Qed.
 End Generic.
 
+(* 6. Abrupt close with anything outstanding (extracted instance: names, pending replies,
+      monitors): after bus_connection_disconnected / free_connection_data no pending-reply
+      entry mentions the connection on either side — a call it made to itself included —,
+      it is in no monitor list and has no unique name; and no NoReply is ever addressed to the
+      connection that has just gone. *)
+Theorem C10_close_cleans_up : forall (k : mstate) c active,
+  let k' := fst (mini_disconnect k c active) in
+  (forall p, In p (m_pend k') -> fst (fst p) <> c /\ snd (fst p) <> c) /\
+  ~ In c (m_mons k') /\
+  (forall p, In p (m_uniq k') -> fst p <> c) /\
+  (forall p, In p (m_acq k') -> fst p <> c).
+Proof. exact disconnect_cleans_up. Qed.
+
+Theorem C10_no_error_to_departed : forall (k : mstate) c active to s,
+  In (MON, NoReply to s) (snd (mini_disconnect k c active)) -> to <> c /\ In (to, c, s) (m_pend k).
+Proof. exact no_error_to_departed. Qed.
+
 (* loader level (C11): after corruption no message is ever produced again *)
 Theorem C10_loader_nothing_after_corruption : forall l chunks, l_corrupted l = true -> outcome (feed_all l chunks) = outcome l.
 Proof. exact corruption_is_final. Qed.
@@ -140,6 +157,8 @@ Print Assumptions C10_accept_gate.
 Print Assumptions C10_setup_assertion_holds.
 Print Assumptions C10_env_run_is_run.
 Print Assumptions C10_loader_nothing_after_corruption.
+Print Assumptions C10_close_cleans_up.
+Print Assumptions C10_no_error_to_departed.
 
 (* ---- non-vacuity: the extracted instance on a concrete attack ------------------- *)
 Definition ex_auth : bytes := [0; 65; 85; 84; 72; 32; 69; 88; 84; 69; 82; 78; 65; 76; 32; 51; 48; 13; 10; 66; 69; 71; 73; 78; 13; 10].
@@ -155,14 +174,14 @@ Definition ex_cfg : cfg := mkCfg 4 30000 32768.
 (* valid, INVALID, valid in one read: one Seen for the Hello, Hi, one Seen for the first
    signal, then Bye and Gone; the third message is never dispatched *)
 Example ex_attack :
-  map (fun o => match o with OCore (_, Seen _ _) => 1 | OCore (_, Hi _) => 2 | OCore (_, Bye _) => 3 | OGone _ => 4 | OAuth _ _ => 5 | _ => 6 end)
+  map (fun o => match o with OCore (_, Seen _ _) => 1 | OCore (_, Hi _) => 2 | OCore (_, Bye _) => 3 | OGone _ => 4 | OAuth _ _ => 5 | OCore (_, NoReply _ _) => 7 | _ => 6 end)
       (concat (mini_run 0 ex_cfg [EAccept 1; ERead 1 ex_auth true; ERead 1 (ex_hello ++ ex_signal ++ ex_bad ++ ex_signal) true]))
   = [5; 1; 2; 1; 3; 4].
 Proof. vm_compute. reflexivity. Qed.
 
 (* the hypotheses of the isolation theorem are satisfiable, and the valid prefix is what one expects *)
 Definition is_pmsg {A} (x : conn A) : bool := match c_phase x with PMsg => true | _ => false end.
-Definition ex_state : state auth unit := fst (run (mini_ops 0) ex_cfg mini_init [EAccept 1; ERead 1 ex_auth true; ERead 1 ex_hello true]).
+Definition ex_state : state auth mstate := fst (run (mini_ops 0) ex_cfg mini_init [EAccept 1; ERead 1 ex_auth true; ERead 1 ex_hello true]).
 Example ex_iso_hyp :
   match find_conn (s_conns ex_state) 1 with
   | Some x => is_pmsg x = true /\
